@@ -1033,7 +1033,16 @@ def stream_grid(ctx):
              # large cells: |k|^2 down to 4e-9, potential coefficients up to 1e4 (coefficients of the kinetic term fall
              # below the library's 1e-8 pruning there: they lie in the skipped band, see close_dicts)
              ([3], 1.0e5), ([3], 2.0e4), ([4], 5.0e4), ([2, 2], 1.0e3), ([3, 2], 3.0e4)]
+    # sequences of grids with the same dimension, lengths and volume but different cell shapes, A, B, C, D, A again: every
+    # generator is called for each of them in this order within the one process (a result memoised on (dimension, length,
+    # volume) would be reused), each time against the independent construction
+    grids += [([3, 2], [[1.0, 0.0], [0.0, 4.0]]), ([3, 2], [[4.0, 0.0], [0.0, 1.0]]), ([3, 2], [[2.0, 1.0], [0.0, 2.0]]),
+              ([3, 2], 2.0), ([3, 2], [[1.0, 0.0], [0.0, 4.0]]),
+              ([2, 2], [[1.0, 0.0], [0.0, 4.0]]), ([2, 2], [[4.0, 0.0], [0.0, 1.0]]), ([2, 2], 2.0), ([2, 2], [[1.0, 0.0], [0.0, 4.0]]),
+              ([3], 2.0), ([3], [[-2.0]]), ([3], 2.0)]
     if ctx.tier == 'thorough':
+        grids += [([2, 2, 2], [[1.0, 0, 0], [0, 1.0, 0], [0, 0, 4.0]]), ([2, 2, 2], [[4.0, 0, 0], [0, 1.0, 0], [0, 0, 1.0]]),
+                  ([2, 2, 2], [[1.0, 0, 0], [0, 1.0, 0], [0, 0, 4.0]])]
         grids += [([6], 1.0), ([4, 4], 1.25), ([4, 3], 1.0), ([2, 2, 2], 1.0), ([3, 2, 2], 2.0), ([3, 3, 3], 1.5),
                   ([3, 3], [[1.2, 0.7], [-0.1, 0.9]]), ([2, 2, 2], [[1.0, 0.2, 0.1], [0.0, 1.1, 0.3], [0.4, 0.0, 0.9]]),
                   ([2, 2], [[0.0, 1.1], [0.7, 0.2]])]
